@@ -57,7 +57,8 @@ def install_spy(rig_log, owner_of):
     orig = _middleware_wrapper.__call__
 
     async def spy(self, *args, **kwargs):
-        nested = bool(IsInsideMiddleware.get()) or self._repid_signal_emitter is None
+        # nesting is tracked by the spy itself (own context variable), independently of the flag the code under test uses
+        nested = CUR_OP.get() is not None or self._repid_signal_emitter is None
         ent = {"name": self.name, "nested": nested, "args": args, "kwargs": kwargs, "owner": owner_of(self, args, kwargs), "enter": rig_log.add(k="truth_enter", op=self.name), "wrapper": self,
                "opid": len(truth), "parent": CUR_OP.get()}
         truth.append(ent)
